@@ -582,8 +582,8 @@ theorem C14_witness_positional (c : Cfg) (hc : c.countById = false) : ¬ C14_ful
   intro h
   have := (h (fun _ => true) Fac.id faithful_id
     [.create 0, .create 0, .create 0, .create 0, .delete [1]]).2.2.2.2.2.2.2.1 0 0 rfl
-  obtain ⟨a, b⟩ := c; simp only at hc; subst hc
-  revert this; cases b <;> decide
+  obtain ⟨a, b, d⟩ := c; simp only at hc; subst hc
+  revert this; cases b <;> cases d <;> decide
 
 /-! ### Arbitrary factories (attribute ≠ key allowed) -/
 
@@ -682,7 +682,7 @@ leaves id 0 in the list of type 0: the count is 1 with no live agent, and the pe
 theorem C14_witness_anyattr_stale :
     let r := run facOther (Reg.init reg2) [.create 0, .delete [0]]
     r.agents = [] ∧ agentIdsE r 0 = some [0] ∧ countE r 0 = some 1 ∧
-      countPerState ⟨true, true⟩ r 0 0 = none ∧ randomAgents r 0 1 (fun _ => (0, 1)) = some [0] := by
+      countPerState ⟨true, true, true⟩ r 0 0 = none ∧ randomAgents r 0 1 (fun _ => (0, 1)) = some [0] := by
   decide
 
 /-- Witness 2 (live agent in no list): agents 0 (attribute 1) and 1 (attribute 0) under key 0;
@@ -749,15 +749,92 @@ theorem C14_alias_irrelevant (c : Cfg) (f : Fac) (ops : List Op) (r : Reg) :
 with no live agent, and the per-state count raises. -/
 def AliasCorrupts (c : Cfg) : Prop :=
   let r := runX c Fac.id (Reg.init reg2) [.callerAppend 0 5]
-  count r 0 = 1 ∧ (liveOfType r 0).length = 0 ∧ countPerState ⟨true, true⟩ r 0 0 = none
+  count r 0 = 1 ∧ (liveOfType r 0).length = 0 ∧ countPerState ⟨true, true, true⟩ r 0 0 = none
 
 theorem C14_alias_witness (c : Cfg) (hc : c.idsAliased = true) : AliasCorrupts c := by
   unfold AliasCorrupts
-  obtain ⟨a, b⟩ := c; simp only at hc; subst hc
-  cases a <;> decide
+  obtain ⟨a, b, d⟩ := c; simp only at hc; subst hc
+  cases a <;> cases d <;> decide
+
+/-! ### Aliased arguments (wave 4): `delete_agents(agent_ids(t))` -/
+
+theorem runD_eq_run (c : Cfg) (hc : c.deleteArgSnapshot = true) (f : Fac) (ops : List OpD) :
+    ∀ r, runD c f r ops = run f r (expandD f r ops) := by
+  induction ops with
+  | nil => intro r; rfl
+  | cons o rest ih =>
+    intro r
+    cases o with
+    | op o => simp only [runD, List.foldl_cons, stepD, expandD, run] at ih ⊢; exact ih _
+    | deleteOwn ty =>
+      simp only [runD, List.foldl_cons, stepD, expandD, hc, Bool.true_or, if_true] at ih ⊢
+      split
+      · simp only [run, List.foldl_cons, step] at ih ⊢; exact ih _
+      · exact ih _
+
+/-- The registry clauses for histories that may pass the registry's own id lists to `delete_agents`. -/
+def C14_full_aliased (c : Cfg) : Prop :=
+  ∀ (reg : Nat → Bool) (f : Fac), Faithful f → ∀ ops : List OpD,
+    let r := runD c f (Reg.init reg) ops
+    (r.agents.map (·.id)).Nodup ∧
+    (∀ a ∈ r.agents, lookup r a.id = some a) ∧
+    (∀ ty, agentIds r ty = (liveOfType r ty).map (·.id)) ∧
+    (∀ ty, count r ty = (liveOfType r ty).length)
+
+/-- When `delete_agents` is a function of the value of its argument, passing the registry's own list is the same
+as passing a copy: every aliased history is a history of value operations (`runD_eq_run`), and all of `C14_full`
+applies to it. -/
+theorem C14_full_aliased_of_snapshot (c : Cfg) (hc : c.deleteArgSnapshot = true) : C14_full_aliased c := by
+  intro reg f hf ops r
+  have hr : r = run f (Reg.init reg) (expandD f (Reg.init reg) ops) := runD_eq_run c hc f ops _
+  rw [hr]
+  exact ⟨C14_ids_unique reg f _, (C14_lookup reg f _ 0).2.2, C14_agent_ids reg f hf _, C14_count reg f hf _⟩
+
+/-- … and deleting a type through its own id list empties it: no live agent of the type, nothing listed. -/
+theorem C14_delete_own_ids (c : Cfg) (hc : c.deleteArgSnapshot = true) (reg : Nat → Bool) (f : Fac) (hf : Faithful f)
+    (ops : List OpD) (ty : Nat) (hty : reg ty = true) :
+    let r := runD c f (Reg.init reg) (ops ++ [.deleteOwn ty])
+    agentIds r ty = [] ∧ liveOfType r ty = [] := by
+  intro r
+  have hall := C14_full_aliased_of_snapshot c hc reg f hf
+  have h0 := (hall ops).2.2.1 ty
+  have h1 := (hall (ops ++ [.deleteOwn ty])).2.2.1 ty
+  have hm : (runD c f (Reg.init reg) ops).mapped ty = true := by
+    rw [runD_eq_run c hc]; exact C14_mapped reg f _ ty hty
+  have hlive : liveOfType r ty = [] := by
+    show liveOfType (runD c f (Reg.init reg) (ops ++ [.deleteOwn ty])) ty = []
+    simp only [runD, List.foldl_append, List.foldl_cons, List.foldl_nil, stepD, hc, Bool.true_or, if_true]
+    simp only [runD] at hm h0
+    rw [hm]
+    simp only [if_true, liveOfType, delete, List.filter_filter]
+    rw [List.filter_eq_nil_iff]
+    intro a ha
+    simp only [Bool.and_eq_true, beq_iff_eq, Bool.not_eq_true', not_and]
+    intro hty' 
+    have : a.id ∈ (liveOfType (List.foldl (stepD c f) (Reg.init reg) ops) ty).map (·.id) :=
+      List.mem_map.mpr ⟨a, List.mem_filter.mpr ⟨ha, by simpa using hty'⟩, rfl⟩
+    rw [← h0] at this
+    simp only [agentIds] at this
+    simpa using this
+  exact ⟨by rw [h1, hlive]; rfl, hlive⟩
+
+/-- Kernel-checked witness of the mechanism "ids are removed in place while the argument is iterated": after
+creating two agents of one type, `delete_agents(agent_ids(type))` leaves a dead id listed — the count is 1 with no
+live agent, the lookup of the listed id finds nothing, the per-state count raises. -/
+theorem C14_witness_delete_inplace (c : Cfg) (hs : c.deleteArgSnapshot = false) (ha : c.idsAliased = true) :
+    ¬ C14_full_aliased c := by
+  intro h
+  have := (h reg2 Fac.id faithful_id [.op (.create 0), .op (.create 0), .deleteOwn 0]).2.2.2 0
+  obtain ⟨a, b, d⟩ := c; simp only at hs ha; subst hs; subst ha
+  revert this; cases a <;> decide
+
+theorem C14_witness_delete_inplace_detail :
+    let r := runD ⟨true, true, false⟩ Fac.id (Reg.init reg2) [.op (.create 0), .op (.create 0), .deleteOwn 0]
+    agentIds r 0 = [1] ∧ r.agents = [] ∧ lookup r 1 = none ∧ countPerState ⟨true, true, false⟩ r 0 0 = none := by
+  decide
 
 /-- Non-vacuity: a history with all operation kinds; the per-state counts are the expected numbers. -/
-example : countPerState ⟨true, true⟩ (run Fac.id (Reg.init reg2)
+example : countPerState ⟨true, true, true⟩ (run Fac.id (Reg.init reg2)
     [.create 0, .create 1, .create 0, .delete [0], .setState 2 5, .configure [(0, 2), (1, 1)],
      .setState 4 7, .create 1, .delete [3, 9], .configureAll [(0, 1), (1, 2)], .setState 7 7, .create 5]) 0 7 = some 1 := by decide
 
@@ -783,5 +860,9 @@ example : randomAgents (run Fac.id (Reg.init reg2)
 #print axioms C14_alias_safe
 #print axioms C14_alias_irrelevant
 #print axioms C14_alias_witness
+#print axioms C14_full_aliased_of_snapshot
+#print axioms C14_delete_own_ids
+#print axioms C14_witness_delete_inplace
+#print axioms C14_witness_delete_inplace_detail
 
 end Bptk.C14
